@@ -38,12 +38,13 @@ TIERS = {
         "chunk": 80,
     },
     "thorough": {
-        "exhaustive": [("ExcState_t1", "2 compound statements (all kinds incl. seq), <= 2 leaves, handler lists (A), (C, A), "
-                                       "context managers no/sup"),
-                       ("ExcState_t2", "2 compound statements, 1 leaf, everything"),
-                       ("ExcState_t3", "1 compound statement, <= 3 leaves, everything")],
-        "sim": ("ExcState_tsim", 16, 40000, 4000, "random growth to depth <= 3, <= 5 compound statements, <= 5 leaves"),
-        "chunk": 120,
+        "exhaustive": [("ExcState_wide", "1 compound statement, <= 2 injected leaves, all handler lists / context managers / leaves"),
+                       ("ExcState_deep", "2 nested compound statements (try, try/finally, with, loop), <= 2 leaves of "
+                                         "{raise A, bare raise, return, break, continue}"),
+                       ("ExcState_t1", "2 compound statements of {try, try/finally, seq}, <= 2 leaves of {raise A, bare raise, return}"),
+                       ("ExcState_t3", "1 compound statement, <= 3 leaves, handler lists (A), (C, A), context managers no/sup")],
+        "sim": ("ExcState_tsim", 16, 30000, 800, "random growth to depth <= 3, <= 5 compound statements, <= 5 leaves"),
+        "chunk": 100,
     },
 }
 
